@@ -2,8 +2,9 @@
    [serde_urlencoded]'s [forward_parsed_value!] call) and [Display] for the
    scalar types a path / query / form parameter can have: [bool], the integer
    types [u8 .. u128], [i8 .. i128], [char], [String], unit-variant enums
-   (matched by wire name) and [uuid::Uuid].  [f32]/[f64] are OUT OF SCOPE of this model (Rust's
-   float grammar and rounding are not transcribed); no case uses them.
+   (matched by wire name) and [uuid::Uuid].  [f32]/[f64] are not members of the [sty]
+   universe; their grammar and correct rounding to binary32 / binary64 are
+   modelled separately ([parse_f32], [parse_f64] below).
 
    Integers ([core::num] [from_str_radix] with radix 10):
 
@@ -247,6 +248,132 @@ Definition print_uuid (bs : list N) : str :=
   HYPHEN :: hex_lower (skipn 10 bs).
 
 Definition uuid_ok (bs : list N) : bool := (length bs =? 16)%nat && bytes_ok bs.
+
+(* ---------- f32 / f64: [f32::from_str] / [f64::from_str] (core::num::dec2flt) ----------
+
+   Not members of [sty] (other developments match on it exhaustively): a
+   separate parser from text to the IEEE 754 bit pattern.
+
+   Grammar (dec2flt::parse): an optional '+' or '-'; then either one of "nan",
+   "inf", "infinity" in any letter case, or digits with an optional '.' and
+   more digits (at least one digit in all: "5.", ".5" are fine, "." is not),
+   optionally followed by 'e' / 'E', an optional sign and at least one digit;
+   nothing else (no blanks, no '_', no hex).
+
+   Value: the decimal d * 10^e denotes an exact rational; the result is the
+   binary32 / binary64 number nearest to it, ties to the even significand,
+   gradual underflow (subnormals), overflow to infinity - computed here on
+   unbounded integers: scale the rational so that its integer part has exactly
+   p bits (or the least exponent is reached), divide with remainder, round. *)
+
+Record fmt := { f_p : Z;       (* precision: 24 / 53 *)
+                f_emin : Z;    (* exponent of the least subnormal: -149 / -1074 *)
+                f_w : Z }.     (* width of the exponent field: 8 / 11 *)
+Definition binary32 : fmt := {| f_p := 24; f_emin := -149; f_w := 8 |}.
+Definition binary64 : fmt := {| f_p := 53; f_emin := -1074; f_w := 11 |}.
+
+(* A / B rounded to the nearest integer, ties to even (A >= 0, B > 0) *)
+Definition rne (A B : Z) : Z :=
+  let m0 := (A / B)%Z in
+  let r := (A mod B)%Z in
+  if (2 * r <? B)%Z then m0
+  else if (2 * r =? B)%Z then (if Z.even m0 then m0 else m0 + 1)%Z
+  else (m0 + 1)%Z.
+
+(* floor (log2 (num / den)) for num, den > 0 *)
+Definition flog2_ratio (num den : Z) : Z :=
+  let l := (Z.log2 num - Z.log2 den)%Z in
+  let ge := if (0 <=? l)%Z then (den * 2 ^ l <=? num)%Z else (den <=? num * 2 ^ (- l))%Z in
+  if ge then l else (l - 1)%Z.
+
+(* the magnitude bits of num / den (num, den > 0) in format fm *)
+Definition round_ratio (fm : fmt) (num den : Z) : Z :=
+  let p := f_p fm in
+  let k := Z.max (f_emin fm) (flog2_ratio num den - (p - 1)) in
+  let m := if (0 <=? k)%Z then rne num (den * 2 ^ k) else rne (num * 2 ^ (- k)) den in
+  (* biased exponent and fraction in one sum: a subnormal has k = emin and
+     m < 2^(p-1); a carry out of the significand lands in the exponent *)
+  let bits := ((k - f_emin fm) * 2 ^ (p - 1) + m)%Z in
+  let inf := ((2 ^ f_w fm - 1) * 2 ^ (p - 1))%Z in
+  Z.min bits inf.
+
+Definition sign_bit (fm : fmt) : Z := (2 ^ (f_w fm + f_p fm - 1))%Z.
+
+(* d * 10^e10, d given with [nd] digits (leading zeros included) *)
+Definition decimal_bits (fm : fmt) (d : N) (nd : Z) (e10 : Z) : Z :=
+  if (d =? 0)%N then 0%Z
+  else if (400 <? e10)%Z then ((2 ^ f_w fm - 1) * 2 ^ (f_p fm - 1))%Z   (* >= 10^401: infinity *)
+  else if (e10 + nd <? -400)%Z then 0%Z                                  (* < 10^-400: rounds to zero *)
+  else if (0 <=? e10)%Z then round_ratio fm (Z.of_N d * 10 ^ e10) 1
+  else round_ratio fm (Z.of_N d) (10 ^ (- e10)).
+
+Definition S_NAN : str := [110; 97; 110].
+Definition S_INF : str := [105; 110; 102].
+Definition S_INFINITY : str := [105; 110; 102; 105; 110; 105; 116; 121].
+
+Fixpoint span_digits (s : str) : str * str :=
+  match s with
+  | c :: t => if is_digit c then let (a, r) := span_digits t in (c :: a, r) else ([], s)
+  | [] => ([], [])
+  end.
+
+Definition digits_N (s : str) : N := match digits_val 0 s with Some n => n | None => 0 end.
+  (* only ever applied to the output of [span_digits]: all digits *)
+
+(* the exponent part: [Some e] for "" (0) or e/E [sign] digits+ up to the end *)
+Definition parse_exponent (s : str) : option Z :=
+  match s with
+  | [] => Some 0%Z
+  | c :: t =>
+      if (c =? 101) || (c =? 69) then
+        let (neg, t') := match t with
+                         | 45 :: r => (true, r)
+                         | 43 :: r => (false, r)
+                         | _ => (false, t)
+                         end in
+        let (ds, rest) := span_digits t' in
+        if is_nil ds || negb (is_nil rest) then None
+        else Some (if neg then (- Z.of_N (digits_N ds))%Z else Z.of_N (digits_N ds))
+      else None
+  end.
+
+(* the magnitude: [Some bits] *)
+Definition parse_float_magnitude (fm : fmt) (s : str) : option Z :=
+  let low := str_lower s in
+  if str_eqb low S_NAN then Some (((2 ^ f_w fm - 1) * 2 ^ (f_p fm - 1) + 2 ^ (f_p fm - 2))%Z)   (* quiet NaN *)
+  else if str_eqb low S_INF || str_eqb low S_INFINITY then Some (((2 ^ f_w fm - 1) * 2 ^ (f_p fm - 1))%Z)
+  else
+    let (d1, r1) := span_digits s in
+    let (d2, r2) := match r1 with
+                    | 46 :: t => span_digits t
+                    | _ => ([], r1)
+                    end in
+    if is_nil d1 && is_nil d2 then None else
+    match parse_exponent r2 with
+    | None => None
+    | Some e =>
+        let ds := d1 ++ d2 in
+        Some (decimal_bits fm (digits_N ds) (Z.of_nat (length ds)) (e - Z.of_nat (length d2))%Z)
+    end.
+
+(* text -> bit pattern *)
+Definition parse_float (fm : fmt) (s : str) : option N :=
+  let (neg, body) := match s with
+                     | 45 :: t => (true, t)
+                     | 43 :: t => (false, t)
+                     | _ => (false, s)
+                     end in
+  match body with
+  | [] => None
+  | _ :: _ =>
+      match parse_float_magnitude fm body with
+      | Some m => Some (Z.to_N (if neg then m + sign_bit fm else m)%Z)
+      | None => None
+      end
+  end.
+
+Definition parse_f32 : str -> option N := parse_float binary32.
+Definition parse_f64 : str -> option N := parse_float binary64.
 
 (* ---------- all scalar types ---------- *)
 
